@@ -103,6 +103,9 @@ def synth_case(rng, quick):
         xp = shape * target / (k * np.sum(shape * r ** 3)) if target > 0 else np.zeros(n)
         if kind == 'empty' and rng.random() < 0.5:
             xp = np.full(n, 1e-12 / n)       # below minNucleateDensity
+        if kind != 'empty' and P > 1 and rng.random() < 0.3:
+            # a phase without precipitates among populated ones (its early-out must not touch the others)
+            xp = np.zeros(n) if rng.random() < 0.5 else np.full(n, 1e-12 / n)
         if kind == 'negative':
             xp[int(rng.integers(0, n))] *= -0.5
         x.append(xp)
@@ -210,6 +213,9 @@ def trace_cfgs(quick, rng):
         {'name': 'euler-2phase-split-vratio', 'phases': ('B1', 'B2'), 'gammas': [0.15, 0.12], 'iterator': 'euler', 'segments': [300.0, 700.0, 2000.0], 'vratio': 1.25},
         {'name': 'euler-ramp', 'phases': ('B1',), 'iterator': 'euler', 'segments': [2e3], 'T': (lambda t: 650.0 + 0.05 * t)},
         {'name': 'euler-grain-boundary', 'phases': ('B1',), 'iterator': 'euler', 'segments': [2e3], 'site': 'grain boundaries', 'gamma': 0.22},
+        # no diffusion in the precipitate: the precipitate content is accumulated from step to step
+        {'name': 'rk4-nodiffusion', 'phases': ('B1',), 'iterator': 'rk4', 'segments': [15.0, 15.0], 'infinite': False},
+        {'name': 'euler-nodiffusion', 'phases': ('B1',), 'iterator': 'euler', 'segments': [600.0], 'infinite': False},
         # molar volume of the precipitate changed between two solve calls, with and without a reset in between
         {'name': 'euler-volume-change', 'phases': ('B1',), 'iterator': 'euler', 'segments': [300.0, 300.0],
          'between': [[('setVolumeBeta', ((0.4e-9) ** 3 / 1.2, 1, 4, 'B1'))]]},
@@ -280,6 +286,23 @@ def oracle_trace(tr, tol=1e-9):
         for (cl, cls, msg) in oracle_case(case, tol):
             v.append((cl, cls, 'step %d of run %s: %s' % (aft['n'], tr.meta.get('name'), msg), si))
             break
+        # no-diffusion mode: recorded precipitate content = previous record + k * sum R^3 (x_new - stored PSD) * xbar
+        for p in range(P):
+            if m.precipitateParameters[p].infinitePrecipitateDiffusion:
+                continue
+            if float(np.sum(xs[p])) < m.constraints.minNucleateDensity:
+                continue
+            k = aft['vmA'] / aft['vmB'][p] * aft['volFactor'][p]
+            r3 = (0.5 * (bef['bounds'][p][1:] + bef['bounds'][p][:-1])) ** 3
+            xbar = 0.5 * (mb['xbeta'][p][:-1] + mb['xbeta'][p][1:])
+            for e in range(m.numberOfElements):
+                inc = k * float(np.sum(r3 * (xs[p] - bef['psd'][p]) * xbar[:, e]))
+                want = float(bef['slice']['fconc'][p][e]) + inc
+                got = float(aft['slice']['fconc'][p][e])
+                mag = abs(float(bef['slice']['fconc'][p][e])) + k * float(np.sum(r3 * (np.abs(xs[p]) + np.abs(bef['psd'][p])) * xbar[:, e]))
+                if abs(got - want) > 1e-9 * mag + 1e-300:
+                    v.append(('no_diffusion_accumulates', 'increment', 'step %d of run %s: precipitate content of phase %d (no diffusion in the precipitate) recorded as %r, previous record + increment of this step = %r' % (aft['n'], tr.meta.get('name'), p, got, want), si))
+                    break
         # the distribution handed to the mass balance is the new distribution
         for p in range(P):
             if mb['x'][p].shape != xs[p].shape or not np.allclose(mb['x'][p], xs[p], rtol=1e-12, atol=0):
@@ -298,7 +321,7 @@ def run(ctx):
                        'distinct by hash of the exact inputs')
     axioms, failed = ctx.prove(['C01/Properties.v'])
     # (a)
-    nsyn = 150 if quick else 2500
+    nsyn = 120 if quick else 2500
     cases = []
     p = os.path.join(VERIF, 'corpus', 'C01')
     for i in range(nsyn):
@@ -328,7 +351,7 @@ def run(ctx):
         for h in oracle_trace(tr):
             hits.append(({'kind': 'trace', 'run': cfg['name'], 'step_index': h[3]}, h[:3]))
         ncalls = len(tr.mb_calls)
-        take = min(ncalls, 40 if quick else 400)
+        take = min(ncalls, 18 if quick else 400)
         idx = sorted(set(int(i) for i in np.linspace(0, ncalls - 1, take))) if ncalls else []
         for i in idx:
             c = case_from_mbcall(tr.model, tr.mb_calls[i])
